@@ -782,7 +782,13 @@ def split_inline_box(context, box, position_x, max_x, bottom_space, skip_stack,
                 unicodedata.category(new_child.text[-1]) == 'Zs')
             new_position_x = new_child.position_x + new_child.margin_width()
 
-            if new_position_x > max_x and not trailing_whitespace:
+            overflow = new_position_x > max_x and not trailing_whitespace
+            if overflow and isinstance(new_child, boxes.InlineBox):
+                # Spaces at the end of the line don't make the box overflow.
+                hanging_width = hanging_spaces_width(context, new_child)
+                overflow = new_position_x - hanging_width > max_x
+
+            if overflow:
                 previous_resume_at = _break_waiting_children(
                     context, containing_block, max_x, bottom_space, initial_skip_stack,
                     absolute_boxes, fixed_boxes, line_placeholders,
@@ -871,6 +877,30 @@ def split_inline_box(context, box, position_x, max_x, bottom_space, skip_stack,
     return (
         new_box, resume_at, preserved_line_break, first_letter, last_letter,
         float_widths)
+
+
+def hanging_spaces_width(context, box):
+    """Return the width of the spaces at the end of an inline box."""
+    while isinstance(box, boxes.InlineBox):
+        if box.style['direction'] == 'rtl':
+            end_spacing = (
+                box.padding_left + box.margin_left + box.border_left_width)
+        else:
+            end_spacing = (
+                box.padding_right + box.margin_right + box.border_right_width)
+        if end_spacing or not box.children:
+            return 0
+        box = box.children[-1]
+    if not isinstance(box, boxes.TextBox):
+        return 0
+    stripped_text = box.text.rstrip(' ')
+    if not stripped_text:
+        return box.width
+    if stripped_text == box.text:
+        return 0
+    stripped_box, _, _ = split_text_box(
+        context, box.copy_with_text(stripped_text), None, 0)
+    return box.width - stripped_box.width
 
 
 def split_text_box(context, box, available_width, skip, is_line_start=True):
